@@ -317,6 +317,37 @@ def n_r7_routing(p: Project, rep: Report):
         rep.check("N-R4", "download:serializes-the-given-request", ok, "serialize() is not applied to the request passed in" if not ok else "", loc(p, dl))
 
 
+def n_r7c_service_urls(p: Project, rep: Report):
+    rep.rule("N-R7c", "_get_service_urls: every URL in the mapping it returns is the .url of a message set of the profile response it has just requested and parsed (never the configured URL or a constant)")
+    ci = client_class(p)
+    fn = ci.own_func("_get_service_urls")
+    if fn is None:
+        raise AnalysisError("OFXClient._get_service_urls not found")
+    vals = []
+    for n in ast.walk(fn):
+        if isinstance(n, ast.DictComp):
+            vals.append((n.value, n))
+        elif isinstance(n, ast.Assign) and isinstance(n.targets[0], ast.Subscript) and text(n.targets[0].value) == "urls":
+            vals.append((n.value, n))
+        elif isinstance(n, ast.Dict) and isinstance(parent(n), ast.Assign) and text(parent(n).targets[0]) == "urls":
+            for v in n.values:
+                vals.append((v, n))
+    if not vals:
+        raise AnalysisError("N-R7c: _get_service_urls builds no url mapping")
+    for v, node in vals:
+        ok = isinstance(v, ast.Attribute) and v.attr == "url" and isinstance(v.value, ast.Name) and v.value.id != "self"
+        rep.check("N-R7c", f"_get_service_urls:value({text(v)})", ok, f"a service URL is taken from {text(v)}, not from a message set of the profile" if not ok else "", loc(p, node))
+    defs = local_defs(fn)
+    chain_ok = any(d.kind == "assign" and text(d.value).startswith("self.request_profile(") for d in defs.get("profile", [])) and any(isinstance(c, ast.Call) and text(c.func).endswith(".parse") and c.args and text(c.args[0]) == "profile" for c in own_nodes(fn))
+    rep.check("N-R7c", "_get_service_urls:from-requested-profile", chain_ok, "" if chain_ok else "the URLs do not come from parsing the profile just requested", loc(p, fn))
+    ml = [d for d in defs.get("msgsetlist", []) if d.kind == "assign"]
+    ok = bool(ml) and all(text(d.value).endswith(".msgsetlist") for d in ml)
+    rep.check("N-R7c", "_get_service_urls:message-sets-of-the-profile", ok, "" if ok else "message sets are not read from the profile's MSGSETLIST", loc(p, fn))
+    rets = [r for r in own_nodes(fn) if isinstance(r, ast.Return)]
+    ok = bool(rets) and all(r.value is not None and text(r.value) == "urls" for r in rets)
+    rep.check("N-R7c", "_get_service_urls:returns-mapping", ok, "" if ok else "does not return the mapping it built", loc(p, fn))
+
+
 def _bind(call: ast.Call, names: List[str]) -> Dict[str, ast.AST]:
     b = {names[i]: a for i, a in enumerate(call.args) if i < len(names) and not isinstance(a, ast.Starred)}
     b.update({k.arg: k.value for k in call.keywords if k.arg})
